@@ -411,7 +411,7 @@ Proof.
     + injection Hstep as <-. cbn [fst snd]. apply Bnd_set_res; [exact HB|exact Hdiag].
     + destruct (m_at NumZ clo size result (S finished - 1) tentative) as [v|]; [|discriminate].
       destruct (nth_error result tentative) as [[o2 rt]|]; [|discriminate].
-      destruct (negb (ltb NumZ v rt)); injection Hstep as <-; cbn [fst snd]; exact HB.
+      destruct (geb NumZ v rt); injection Hstep as <-; cbn [fst snd]; exact HB.
 Qed.
 
 Lemma online_loop_bnd : forall k st res,
